@@ -349,7 +349,9 @@ where
 
             token::required_newline(&mut self.parser.reader)?;
         }
-        self.parser.code += 2;
+        // The incremented code is only used for the next latch or gate, of which there is none when
+        // this was the last variable of the largest supported index, so let it wrap.
+        self.parser.code = self.parser.code.wrapping_add(2);
         Ok(Some(OrderedLatch {
             next_state,
             initialization,
@@ -626,7 +628,9 @@ where
             "first input code",
         )?;
 
-        self.parser.code += 2;
+        // The incremented code is only used for the next latch or gate, of which there is none when
+        // this was the last variable of the largest supported index, so let it wrap.
+        self.parser.code = self.parser.code.wrapping_add(2);
         Ok(Some(OrderedAndGate {
             inputs: [L::from_code(input_code_0), L::from_code(input_code_1)],
         }))
